@@ -18,41 +18,174 @@
 /* VERIF-UNIT
 {
  "name": "read_inode2_csum",
- "props": ["C14"],
+ "props": [
+  "C14"
+ ],
  "level": "U/k",
  "tier": "wip",
  "harness": "h_read_inode2",
- "sources": ["lib/ext2fs/io_manager.c"],
- "unwind": 6,
- "unwind_reason": "cache look-up loop: cache_size = 4; copy loop `while (length)`: the inode size divides the block size, one iteration (unwinding assertions prove it)",
- "cbmc_flags": ["--object-bits", "10"],
- "functions": ["lib/ext2fs/inode.c:ext2fs_read_inode2", "lib/ext2fs/inode.c:ext2fs_read_inode_full", "lib/ext2fs/inode.c:ext2fs_read_inode"],
- "assumes": [
-   "ENUMERATED configuration, one call site each: inode size 128 / 256 (dynamic revision), caller buffer 128 / 256 bytes; block size 1024; s_inodes_per_group = 8192 (the location arithmetic divides by it: a symbolic divisor is intractable); inode number, group count, inode table location, blocks count, flags arbitrary",
-   "inode cache present with cache_size = 4 (the size the library creates; 16 after inline-data expansion runs the same code), entry buffers of exactly inode-size bytes, labels / cache_last / buffer_blk arbitrary; the inode asked for is not in the cache (a cached inode is returned without I/O -- checked separately in the harness)",
-   "no EXT2_FLAG_IMAGE_FILE, no fs->read_inode override hook (e2fsck's hook serves its own stashed copy), not a journal device",
-   "ext2fs_inode_csum_verify is a monitor stub answering IN.c.cv_ok; ext2fs_inode_table_loc / ext2fs_blocks_count are stubs returning arbitrary values; io manager read is a monitor stub that may fail; device content arbitrary (the block buffer is arbitrary memory)",
-   "little-endian host"
+ "sources": [
+  "lib/ext2fs/io_manager.c"
  ],
- "native": false
+ "unwind": 6,
+ "unwind_reason": "cache look-up loop: cache_size = 4 (global bound 6); copy loop `while (length)` (unwindset 2): the inode size divides the block size, so exactly one iteration -- proved by the unwinding assertion",
+ "cbmc_flags": [
+  "--object-bits",
+  "10"
+ ],
+ "functions": [
+  "lib/ext2fs/inode.c:ext2fs_read_inode2",
+  "lib/ext2fs/inode.c:ext2fs_read_inode_full",
+  "lib/ext2fs/inode.c:ext2fs_read_inode"
+ ],
+ "assumes": [
+  "configuration of this unit: inode size 256 (dynamic revision), caller buffer 256 bytes; block size 1024; s_inodes_per_group = 8192 (the location arithmetic divides by it: a symbolic divisor is intractable); inode number, group count, inode table location, blocks count, flags arbitrary",
+  "inode cache present with cache_size = 4 (the size the library creates; 16 after inline-data expansion runs the same code), entry buffers of exactly inode-size bytes, labels / cache_last / buffer_blk arbitrary; the inode asked for is not in the cache (a cached inode is returned without I/O -- checked separately in the harness)",
+  "no EXT2_FLAG_IMAGE_FILE, no fs->read_inode override hook (e2fsck's hook serves its own stashed copy), not a journal device",
+  "ext2fs_inode_csum_verify is a monitor stub answering IN.c.cv_ok; ext2fs_inode_table_loc / ext2fs_blocks_count are stubs returning arbitrary values; io manager read is a monitor stub that may fail; device content arbitrary (the block buffer is arbitrary memory)",
+  "little-endian host",
+  "libc memcpy replaced by its contract (bounds asserted at each call; faithful copy stated at the ghost offset, other destination bytes unconstrained)"
+ ],
+ "native": false,
+ "defines": [
+  "RI_ISIZE=256",
+  "RI_BUF=256"
+ ],
+ "replace": [
+  "memcpy"
+ ],
+ "backend": "cadical",
+ "unwindset": {
+  "ext2fs_read_inode2.1": 2
+ }
+}
+*/
+/* VERIF-UNIT
+{
+ "name": "read_inode2_csum_trunc",
+ "props": [
+  "C14"
+ ],
+ "level": "U/k",
+ "tier": "wip",
+ "harness": "h_read_inode2",
+ "sources": [
+  "lib/ext2fs/io_manager.c"
+ ],
+ "unwind": 6,
+ "unwind_reason": "cache look-up loop: cache_size = 4 (global bound 6); copy loop `while (length)` (unwindset 2): the inode size divides the block size, so exactly one iteration -- proved by the unwinding assertion",
+ "cbmc_flags": [
+  "--object-bits",
+  "10"
+ ],
+ "functions": [
+  "lib/ext2fs/inode.c:ext2fs_read_inode2",
+  "lib/ext2fs/inode.c:ext2fs_read_inode_full",
+  "lib/ext2fs/inode.c:ext2fs_read_inode"
+ ],
+ "assumes": [
+  "configuration of this unit: inode size 256 (dynamic revision), caller buffer 128 bytes; block size 1024; s_inodes_per_group = 8192 (the location arithmetic divides by it: a symbolic divisor is intractable); inode number, group count, inode table location, blocks count, flags arbitrary",
+  "inode cache present with cache_size = 4 (the size the library creates; 16 after inline-data expansion runs the same code), entry buffers of exactly inode-size bytes, labels / cache_last / buffer_blk arbitrary; the inode asked for is not in the cache (a cached inode is returned without I/O -- checked separately in the harness)",
+  "no EXT2_FLAG_IMAGE_FILE, no fs->read_inode override hook (e2fsck's hook serves its own stashed copy), not a journal device",
+  "ext2fs_inode_csum_verify is a monitor stub answering IN.c.cv_ok; ext2fs_inode_table_loc / ext2fs_blocks_count are stubs returning arbitrary values; io manager read is a monitor stub that may fail; device content arbitrary (the block buffer is arbitrary memory)",
+  "little-endian host",
+  "libc memcpy replaced by its contract (bounds asserted at each call; faithful copy stated at the ghost offset, other destination bytes unconstrained)"
+ ],
+ "native": false,
+ "defines": [
+  "RI_ISIZE=256",
+  "RI_BUF=128"
+ ],
+ "replace": [
+  "memcpy"
+ ],
+ "backend": "cadical",
+ "unwindset": {
+  "ext2fs_read_inode2.1": 2
+ }
+}
+*/
+/* VERIF-UNIT
+{
+ "name": "read_inode2_csum_small",
+ "props": [
+  "C14"
+ ],
+ "level": "U/k",
+ "tier": "wip",
+ "harness": "h_read_inode2",
+ "sources": [
+  "lib/ext2fs/io_manager.c"
+ ],
+ "unwind": 6,
+ "unwind_reason": "cache look-up loop: cache_size = 4 (global bound 6); copy loop `while (length)` (unwindset 2): the inode size divides the block size, so exactly one iteration -- proved by the unwinding assertion",
+ "cbmc_flags": [
+  "--object-bits",
+  "10"
+ ],
+ "functions": [
+  "lib/ext2fs/inode.c:ext2fs_read_inode2",
+  "lib/ext2fs/inode.c:ext2fs_read_inode_full",
+  "lib/ext2fs/inode.c:ext2fs_read_inode"
+ ],
+ "assumes": [
+  "configuration of this unit: inode size 128 (dynamic revision), caller buffer 128 bytes; block size 1024; s_inodes_per_group = 8192 (the location arithmetic divides by it: a symbolic divisor is intractable); inode number, group count, inode table location, blocks count, flags arbitrary",
+  "inode cache present with cache_size = 4 (the size the library creates; 16 after inline-data expansion runs the same code), entry buffers of exactly inode-size bytes, labels / cache_last / buffer_blk arbitrary; the inode asked for is not in the cache (a cached inode is returned without I/O -- checked separately in the harness)",
+  "no EXT2_FLAG_IMAGE_FILE, no fs->read_inode override hook (e2fsck's hook serves its own stashed copy), not a journal device",
+  "ext2fs_inode_csum_verify is a monitor stub answering IN.c.cv_ok; ext2fs_inode_table_loc / ext2fs_blocks_count are stubs returning arbitrary values; io manager read is a monitor stub that may fail; device content arbitrary (the block buffer is arbitrary memory)",
+  "little-endian host",
+  "libc memcpy replaced by its contract (bounds asserted at each call; faithful copy stated at the ghost offset, other destination bytes unconstrained)"
+ ],
+ "native": false,
+ "defines": [
+  "RI_ISIZE=128",
+  "RI_BUF=128"
+ ],
+ "replace": [
+  "memcpy"
+ ],
+ "backend": "cadical",
+ "unwindset": {
+  "ext2fs_read_inode2.1": 2
+ }
 }
 */
 /* VERIF-UNIT
 {
  "name": "read_inode2_cache_coherent",
- "props": ["C14"],
+ "props": [
+  "C14"
+ ],
  "level": "U/k",
  "tier": "wip",
  "harness": "h_read_inode2",
- "sources": ["lib/ext2fs/io_manager.c"],
- "unwind": 6,
- "unwind_reason": "as read_inode2_csum",
- "cbmc_flags": ["--object-bits", "10"],
- "functions": ["lib/ext2fs/inode.c:ext2fs_read_inode2"],
- "assumes": [
-   "as read_inode2_csum; additionally checks that a slot still labelled with another inode after the call still holds that inode's bytes (ghost slot, ghost byte) -- FAILS on the pinned tree: finding C14_icache_clobbered_on_csum_error (native demo + proposed fix)"
+ "sources": [
+  "lib/ext2fs/io_manager.c"
  ],
- "native": false
+ "unwind": 6,
+ "unwind_reason": "cache look-up loop: cache_size = 4 (global bound 6); copy loop `while (length)` (unwindset 2): the inode size divides the block size, so exactly one iteration -- proved by the unwinding assertion",
+ "cbmc_flags": [
+  "--object-bits",
+  "10"
+ ],
+ "functions": [
+  "lib/ext2fs/inode.c:ext2fs_read_inode2"
+ ],
+ "assumes": [
+  "as read_inode2_csum (inode size 256, buffer 256); additionally checks that a slot still labelled with another inode after the call still holds that inode's bytes (ghost slot, ghost byte) -- FAILS on the pinned tree: finding C14_icache_clobbered_on_csum_error (native demo + proposed fix); passes with the proposed fix"
+ ],
+ "native": false,
+ "defines": [
+  "RI_ISIZE=256",
+  "RI_BUF=256"
+ ],
+ "replace": [
+  "memcpy"
+ ],
+ "backend": "cadical",
+ "unwindset": {
+  "ext2fs_read_inode2.1": 2
+ }
 }
 */
 #include "verif.h"
@@ -71,6 +204,7 @@ struct in_ri {
 struct in_ri IN;
 #include "verif_in.h"
 
+#define CS_MEMCPY_CONTRACT
 #include "lib/ext2fs/inode.c"
 #include "csumio_common.h"
 
@@ -201,14 +335,20 @@ static void run(const int isize, const int bufsize, const int which)
 	}
 }
 
-#define RUN_W(IS, BUF) do { if (IN.which == 0) run(IS, BUF, 0); else if (IN.which == 1) run(IS, BUF, 1); else if ((BUF) == 128) run(IS, 128, 2); else run(IS, BUF, 0); } while (0)
+/* RI_ISIZE / RI_BUF select the configuration (one unit each); without them: 256-byte inodes into a 256-byte buffer */
+#ifndef RI_ISIZE
+#define RI_ISIZE 256
+#endif
+#ifndef RI_BUF
+#define RI_BUF 256
+#endif
 void h_read_inode2(void)
 {
 	LOAD_IN();
-	if (IN.big_inode) {
-		if (IN.big_buf) RUN_W(256, 256); else RUN_W(256, 128);
-	} else {
-		if (IN.big_buf) RUN_W(128, 256); else RUN_W(128, 128);
-	}
+#if RI_BUF == 128
+	if (IN.which == 2) run(RI_ISIZE, 128, 2); else
+#endif
+	if (IN.which == 1) run(RI_ISIZE, RI_BUF, 1);
+	else run(RI_ISIZE, RI_BUF, 0);
 	REACH("end");
 }
